@@ -12,10 +12,10 @@ class Exam:
     __slots__ = ('lay', 'ok', 'exc', 'out', 'labels_true', 'labels_reported', 'per_item', 'layout_problem', 'lines')
 
 
-def examine(asm, items, compress, seed=0, nregs=4, judge=True, lines=None):
+def examine(asm, items, compress, seed=0, nregs=4, judge=True, lines=None, eol='\n', preseed=None):
     ex = Exam()
     ex.lines = lines if lines is not None else P.render(items)
-    lay = monitors.layout(asm, ex.lines, compress)
+    lay = monitors.layout(asm, ex.lines, compress, eol=eol, preseed=preseed)
     ex.lay = lay
     ex.ok = lay.obs.ok
     ex.exc = lay.obs.exc
@@ -77,7 +77,7 @@ def label_table_problems(ex):
         if rep != off:
             out.append('label %s reported at %r, the first byte after it is at offset %d' % (name, rep, off))
     for name in ex.labels_reported:
-        if name not in ex.labels_true and not name.startswith('__bbvf'):
+        if name not in ex.labels_true and not name.startswith('__bbvf') and not name.startswith('EXT_'):
             out.append('label table contains %r which the program does not define' % name)
     return out
 
